@@ -150,6 +150,16 @@ Theorem root_state_would_conflict :
     In b (serve_fp rootstate 0 2 one_root [] (BOk None) get_a1) /\ conflict a b.
 Proof. exact FootprintProofs.root_state_would_conflict. Qed.
 
+(* EncodeTunnelledQuery assembling bodies in a recycled package-level buffer and handing out a slice of it: any two
+   client calls conflict (one still reads its request body while the other writes its own) ... *)
+Theorem pooled_tunnel_buffer_would_conflict : forall c1 c2 r1 r2 res1 res2,
+  exists a b, In a (call_fp pooled c1 r1 res1) /\ In b (call_fp pooled c2 r2 res2) /\ conflict a b.
+Proof. exact FootprintProofs.pooled_tunnel_buffer_would_conflict. Qed.
+
+(* ... on the current code the buffer is allocated per call: no operation touches a shared tunnel buffer. *)
+Theorem tunnel_buffer_is_private : forall r o a, In a (footprint current r o) -> a_cell a <> CTunnelBuf.
+Proof. exact FootprintProofs.tunnel_buffer_is_private. Qed.
+
 (* ---- the honest full statement ---------------------------------------------------------------------------------- *)
 
 (* [observed r o]: the accesses the REAL program performs when goroutine r runs operation o.  The property's full
@@ -191,4 +201,6 @@ Print Assumptions shared_error_inplace_would_conflict.
 Print Assumptions unlocked_rng_would_conflict.
 Print Assumptions shared_tree_would_conflict.
 Print Assumptions root_state_would_conflict.
+Print Assumptions pooled_tunnel_buffer_would_conflict.
+Print Assumptions tunnel_buffer_is_private.
 Print Assumptions race_free_given_adequacy.
